@@ -134,10 +134,12 @@ REQ = OBJ(f"{MP}::IntroductionRequestPayload", destination_address=V4T, source_l
           identifier=RANGE(0, 65535), extra_bytes=BYTES, advice=BOOL, connection_type=STR, supports_new_style=BOOL)
 contract(f"{COM}::Community.on_introduction_request", "answer-goes-to-observed-address",
          vars={"peer": PEER_OBJ(_address=V4T, _addresses=EXPR("DirtyDict()"), new_style_intro=BOOL, address_frozen=EXPR("False")),
-               "payload": REQ, "RESP": BYTES, "dist": ANY,
+               "payload": REQ, "RESP": BYTES, "dist": ANY, "oldlan": V4T,
                "self": community(endpoint=EFFECT("endpoint", send={}), community_id=BYTES_N(20),
                                  network=EFFECT("network", add_verified_peer={}, discover_services={}))},
-         requires=["observed(peer)"],
+         # the peer may be known already, with an OLDER self-reported LAN address (it restarted / its DHCP lease changed)
+         instances=[{"had_lan": False}, {"had_lan": True}],
+         requires=["observed(peer)", "remembered_lan(peer, had_lan, oldlan)"],
          call="self.on_introduction_request(peer, dist, payload)", raises=[],
          stubs={f"{COM}::Community.get_peers": {"returns": "[]", "note": "below max_peers"},
                 f"{COM}::Community.create_introduction_response": {"event": "mk_response", "returns": "RESP",
@@ -149,7 +151,14 @@ contract(f"{COM}::Community.on_introduction_request", "answer-goes-to-observed-a
                   "peer._addresses[UDPv4LANAddress] == payload.source_lan_address",
                   "peer.address == old(peer._address)"],
          note="the response (and the puncture request's walker address) use the address the request was observed from; the "
-              "self-reported LAN address is stored for later introductions")
+              "self-reported LAN address is stored for later introductions - and REPLACES an older one")
+
+
+def remembered_lan(peer, had_lan, oldlan):
+    if had_lan:
+        peer._addresses[UDPv4LANAddress] = UDPv4LANAddress(oldlan[0], oldlan[1])
+        peer._addresses.dirty = False
+    return True
 
 
 def observed(peer):
